@@ -363,3 +363,233 @@ def discrete_history_guard(repo, rep):
                        detail="" if ok else "the step that lands exactly on tmax is reported in the series and the transmissions but "
                        "left out of the node histories")
         rep.floor("DISC", "%s history appends" % name, n, 2)
+
+
+# ---------------------------------------------------------------------------
+# STATE: nothing survives from one call to the next
+# ---------------------------------------------------------------------------
+def state_rule(repo, rep, modules=("simulation", "analytic", "auxiliary", "simulation_investigation", "__init__")):
+    rep.rule("STATE", "no state survives a call: no parameter default that is evaluated once and then shared (a call other than "
+                      "float()/int(), a list / dict / set display or comprehension), and no class-level data attribute holding a "
+                      "mutable object (every instance would share it)")
+    nfun = ncls = 0
+    for m in modules:
+        tree = repo.mods[m]
+        for n in ast.walk(tree):
+            if isinstance(n, (ast.FunctionDef, ast.Lambda)):
+                nfun += 1
+                bad = []
+                for d in n.args.defaults + [k for k in n.args.kw_defaults if k is not None]:
+                    for x in ast.walk(d):
+                        if isinstance(x, (ast.List, ast.Dict, ast.Set, ast.ListComp, ast.DictComp, ast.SetComp, ast.GeneratorExp)) or \
+                                (isinstance(x, ast.Call) and (attr_chain(x.func) or "") not in ("float", "int", "str", "tuple", "frozenset", "bool")):
+                            bad.append(d)
+                            break
+                name = getattr(n, "name", "<lambda>")
+                f = next((g for g in repo.all_funcs() if g.node is n), None)
+                if bad:
+                    for d in bad:
+                        rep.ob("STATE", False, "%s: default argument values are immutable constants" % name, func=f, node=d,
+                               construct="default %s of %s" % (short(d, 50), name),
+                               detail="the default `%s` is created once when the function is defined and shared by every later call "
+                               "that omits the argument: what one run leaves in it is seen by the next" % short(d, 60))
+                elif f is not None:
+                    rep.ob("STATE", True, "%s: default argument values are immutable constants" % name, func=f, node=n,
+                           construct="defaults of %s" % name)
+            elif isinstance(n, ast.ClassDef):
+                ncls += 1
+                for b in n.body:
+                    tgt = val = None
+                    if isinstance(b, ast.Assign):
+                        tgt, val = b.targets[0], b.value
+                    elif isinstance(b, ast.AnnAssign) and b.value is not None:
+                        tgt, val = b.target, b.value
+                    if val is None:
+                        continue
+                    mutable = any(isinstance(x, (ast.List, ast.Dict, ast.Set, ast.ListComp, ast.DictComp, ast.SetComp)) or
+                                  (isinstance(x, ast.Call) and (attr_chain(x.func) or "") not in ("float", "int", "str", "tuple", "frozenset", "bool"))
+                                  for x in ast.walk(val))
+                    rep.ob("STATE", not mutable, "class %s: no mutable class-level attribute" % n.name, node=b,
+                           construct="%s.%s = %s" % (n.name, short(tgt, 30), short(val, 40)),
+                           detail="" if not mutable else "`%s` in the class body is ONE object shared by all instances (and all runs in "
+                           "the process); methods that update it in place leak state from one simulation into the next" % short(b, 60))
+    rep.count("STATE:functions examined", nfun)
+    rep.count("STATE:classes examined", ncls)
+    rep.floor("STATE", "functions examined", nfun, 150)
+
+
+# ---------------------------------------------------------------------------
+# R6n: node labels are opaque Python objects, never numpy scalars
+# ---------------------------------------------------------------------------
+_LABEL_COLLECTIONS = ("nodelist", "initial_infecteds", "initial_recovereds")
+
+
+def labels_not_in_numpy(repo, rep, modules=("analytic", "simulation")):
+    rep.rule("R6n", "collections of node labels (nodelist, initial_infecteds, initial_recovereds, G / G.nodes()) are never turned "
+                    "into numpy arrays or compared with numpy set functions: numpy coerces labels (1 and '1', equal-length tuples), so "
+                    "the result would depend on how nodes are named")
+    NP = ("np.array", "np.asarray", "np.isin", "np.in1d", "np.unique", "np.sort", "np.intersect1d", "np.setdiff1d", "np.union1d",
+          "numpy.array", "numpy.asarray", "numpy.isin", "numpy.in1d")
+
+    def label_collection(e):
+        if isinstance(e, ast.Name) and e.id in _LABEL_COLLECTIONS:
+            return True
+        if isinstance(e, ast.Call):
+            ch = attr_chain(e.func) or ""
+            if ch in ("list", "tuple", "sorted", "set") and e.args:
+                return label_collection(e.args[0])
+            if ch in ("G.nodes", "G.nodes()") or (ch.endswith(".nodes") and not e.args):
+                return True
+        if isinstance(e, ast.Name) and e.id == "G":
+            return True
+        return False
+    n = 0
+    for m in modules:
+        for f in repo.all_funcs():
+            if f.module != m:
+                continue
+            for c in own_nodes(f.node):
+                if isinstance(c, ast.Call) and (attr_chain(c.func) or "") in NP:
+                    n += 1
+                    args = list(c.args) + [k.value for k in c.keywords]
+                    bad = [a for a in args if label_collection(a)]
+                    if bad:
+                        rep.analysed(f)
+                        rep.ob("R6n", False, "%s: node labels stay Python objects" % f.name, func=f, node=c,
+                               construct="%s(%s)" % (attr_chain(c.func), short(bad[0], 40)),
+                               detail="`%s` hands a collection of node labels to numpy, which coerces them to a common dtype: mixed "
+                               "int/str labels stop matching and equal-length tuple labels become rows" % short(c, 70))
+    rep.count("R6n:numpy array/set constructions examined", n)
+    rep.ob("R6n", True, "numpy array / set-function calls examined", construct="%d calls, none on node-label collections" % n)
+    rep.floor("R6n", "numpy array/set constructions examined", n, 40)
+
+
+# ---------------------------------------------------------------------------
+# ARR: list-or-array arguments are converted before they are used in arithmetic
+# ---------------------------------------------------------------------------
+def converted_before_use(repo, rep, modules=("analytic",)):
+    rep.rule("ARR", "a parameter that the function converts with np.array(p) (it may be a plain list) is not used in arithmetic "
+                    "before that conversion (list + list concatenates, list * float raises)")
+    nconv = 0
+    for m in modules:
+        for f in sorted(repo.public_functions(m), key=lambda g: g.name):
+            conv = {}
+            for i, st in enumerate(f.node.body):
+                if isinstance(st, ast.Assign) and len(st.targets) == 1 and isinstance(st.targets[0], ast.Name) \
+                        and st.targets[0].id in f.all_params and isinstance(st.value, ast.Call) \
+                        and (attr_chain(st.value.func) or "") in ("np.array", "np.asarray", "numpy.array") and st.value.args \
+                        and isinstance(st.value.args[0], ast.Name) and st.value.args[0].id == st.targets[0].id:
+                    conv.setdefault(st.targets[0].id, i)
+            if not conv:
+                continue
+            rep.analysed(f)
+            for p, at in sorted(conv.items()):
+                nconv += 1
+                early = None
+                for st in f.node.body[:at]:
+                    for x in ast.walk(st):
+                        if isinstance(x, (ast.BinOp, ast.AugAssign)) and any(isinstance(y, ast.Name) and y.id == p for y in
+                                                                               ast.walk(x.left if isinstance(x, ast.BinOp) else x.value)):
+                            early = x
+                        if isinstance(x, ast.BinOp) and any(isinstance(y, ast.Name) and y.id == p for y in ast.walk(x.right)):
+                            early = x
+                        # only DIRECT operands count (p + q, 2*p), not p[i]*... or len(p)*...
+                        if early is not None:
+                            ops = [early.left, early.right] if isinstance(early, ast.BinOp) else [early.value]
+                            if not any(isinstance(o, ast.Name) and o.id == p for o in ops):
+                                early = None
+                        if early is not None:
+                            break
+                    if early is not None:
+                        break
+                rep.ob("ARR", early is None, "%s: %s is converted to an array before it is used in arithmetic" % (f.name, p), func=f,
+                       node=early or f.node.body[at], construct="%s = np.array(%s) before any arithmetic on %s" % (p, p, p),
+                       detail="" if early is None else "`%s` uses %s before `%s = np.array(%s)`: with the documented list input `+` "
+                       "concatenates and `*` repeats or raises" % (short(early, 60), p, p, p))
+    rep.count("ARR:converted parameters", nconv)
+    rep.floor("ARR", "converted parameters", nconv, 4)
+
+
+# ---------------------------------------------------------------------------
+# IC.pure: the indicator arrays of the *_pure_IC wrappers
+# ---------------------------------------------------------------------------
+def pure_ic_rule(repo, rep):
+    rep.rule("ICP", "*_pure_IC: Y0[i] = 1 exactly for the nodes of initial_infecteds (nothing else flows into the set that is "
+                    "tested, also not through an alias that is later extended in place), X0[i] = 1 exactly for the nodes in neither "
+                    "initial_infecteds nor initial_recovereds, both laid out over nodelist")
+    names = [n for n in ("SIS_individual_based_pure_IC", "SIR_individual_based_pure_IC", "SIS_pair_based_pure_IC", "SIR_pair_based_pure_IC")]
+    for name in names:
+        f = repo.f(name)
+        rep.analysed(f)
+        # alias classes and taint (flow-insensitive, so an in-place extension anywhere taints every alias)
+        parent = {}
+
+        def find(x):
+            while parent.get(x, x) != x:
+                x = parent[x]
+            return x
+        taint = {}
+        nodes = list(own_nodes(f.node))
+        for n in nodes:
+            if isinstance(n, ast.Assign) and len(n.targets) == 1 and isinstance(n.targets[0], ast.Name) and isinstance(n.value, ast.Name):
+                a, b = find(n.targets[0].id), find(n.value.id)
+                if a != b:
+                    parent[a] = b
+        changed = True
+        PARAMS = {"initial_infecteds", "initial_recovereds"}
+        while changed:
+            changed = False
+            for n in nodes:
+                tgt = src = None
+                if isinstance(n, ast.Assign) and len(n.targets) == 1 and isinstance(n.targets[0], ast.Name):
+                    tgt, src = n.targets[0].id, n.value
+                elif isinstance(n, ast.AugAssign) and isinstance(n.target, ast.Name):
+                    tgt, src = n.target.id, n.value
+                elif isinstance(n, ast.Call) and isinstance(n.func, ast.Attribute) and isinstance(n.func.value, ast.Name) \
+                        and n.func.attr in ("update", "add", "extend", "append", "union_update", "__ior__"):
+                    tgt, src = n.func.value.id, ast.Tuple(elts=list(n.args), ctx=ast.Load())
+                if tgt is None:
+                    continue
+                new = set()
+                for x in ast.walk(src):
+                    if isinstance(x, ast.Name):
+                        if x.id in PARAMS:
+                            new.add(x.id)
+                        new |= taint.get(find(x.id), set())
+                cls = find(tgt)
+                if tgt in PARAMS:
+                    new.add(tgt)
+                if not new <= taint.get(cls, set()):
+                    taint[cls] = taint.get(cls, set()) | new
+                    changed = True
+
+        def tested_sets(target):
+            """taints of the collections whose membership decides the elements of the comprehension assigned to `target`."""
+            out = []
+            for n in nodes:
+                if isinstance(n, ast.Assign) and isinstance(n.targets[0], ast.Name) and n.targets[0].id == target:
+                    for x in ast.walk(n.value):
+                        if isinstance(x, ast.Compare) and isinstance(x.ops[0], (ast.In, ast.NotIn)):
+                            s = set()
+                            for y in ast.walk(x.comparators[0]):
+                                if isinstance(y, ast.Name):
+                                    s |= taint.get(find(y.id), set()) | ({y.id} & PARAMS)
+                            out.append((s, n))
+            return out
+        ys = tested_sets("Y0")
+        oky = bool(ys) and all(s == {"initial_infecteds"} for s, _ in ys)
+        rep.ob("ICP", oky, "%s: Y0 marks exactly the initially infected nodes" % name, func=f, node=ys[0][1] if ys else f.node,
+               construct="Y0 membership set derives from %s" % sorted(ys[0][0] if ys else []),
+               detail="" if oky else "the set tested for Y0 also receives %s (directly or through an alias that is extended in place)"
+               % sorted((ys[0][0] if ys else set()) - {"initial_infecteds"}))
+        if "initial_recovereds" in f.all_params:
+            xs = tested_sets("X0")
+            okx = bool(xs) and all(s == PARAMS for s, _ in xs)
+            rep.ob("ICP", okx, "%s: X0 excludes both the initially infected and the initially recovered nodes" % name, func=f,
+                   node=xs[0][1] if xs else f.node, construct="X0 membership set derives from %s" % sorted(xs[0][0] if xs else []),
+                   detail="" if okx else "the set tested for X0 derives from %s instead of both initial sets" % sorted(xs[0][0] if xs else []))
+        lay = [n for n in nodes if isinstance(n, ast.Assign) and isinstance(n.targets[0], ast.Name) and n.targets[0].id in ("Y0", "X0")
+               and any(isinstance(x, ast.comprehension) for x in ast.walk(n.value))]
+        okl = bool(lay) and all(any(isinstance(x, ast.comprehension) and _k(x.iter) == "nodelist" for x in ast.walk(n.value)) for n in lay)
+        rep.ob("ICP", okl, "%s: the indicator arrays are laid out over nodelist" % name, func=f, node=lay[0] if lay else f.node,
+               construct="indicator comprehension over nodelist", detail="" if okl else "an indicator array is not built by iterating nodelist")
